@@ -76,6 +76,9 @@ Clauses(r) ==
     [] PROP = "CONF" -> << <<"CONF_drift", CONF_drift(r)>> >>
     \* design level: the same clauses on the model's own result for the text of the record
     [] PROP = "MSAME" -> << <<"M_same_toks", M_same_toks(r)>>, <<"M_same_errs", M_same_errs(r)>>, <<"M_fault", M_fault(r)>> >>
+    [] PROP = "M06" -> LET m == ModelRec(r) IN
+         << <<"M06_shape", C06_shape(m)>>, <<"M06_payload_kind", C06_payload_kind(m)>>,
+            <<"M06_channel", C06_channel(m)>>, <<"M06_hidden", C06_hidden(m)>> >>
     [] PROP = "M09" -> LET m == ModelRec(r) IN
          << <<"M09_bounds", C09_bounds(m)>>, <<"M09_last_token", C09_last_token(m)>>,
             <<"M09_order", C09_order(m)>>, <<"M09_err_has_tok", C09_err_has_tok(m)>>,
